@@ -49,7 +49,7 @@ def judge(ck, name, cases, results):
 def run(ck, tier):
     binary = vf.build_harness("stark")
     thorough = tier == "thorough"
-    b = starklib.generate(ck, "BoundaryStarkCfg.cfg", "boundary")
+    b = starklib.generate(ck, "BoundaryStarkCfg.cfg", "boundary", tag="BOUNDARY")
     ck.require(len(b) >= 25, "boundary list too short: %d" % len(b))
     res = starklib.run_pipeline(binary, "c01-boundary", b)
     judge(ck, "boundary", b, res)
